@@ -96,6 +96,7 @@ struct Run {
   std::string section, tier = "quick";
   uint64_t shard = 0, nshards = 1, start = 0;
   int64_t only = -1;
+  int64_t upto = -1;  // replay with history: run this shard's cases as usual but none beyond this index
   Slot* slot = nullptr;
   Slot dummy_slot{};
   std::string outpath;
@@ -119,6 +120,7 @@ struct Run {
     if (only >= 0) {
       if ((uint64_t)only != i) return false;
     } else if (i < start || (i % nshards) != shard) return false;
+    if (upto >= 0 && i > (uint64_t)upto) return false;
     cur = i;
     slot->idx = i;
     slot->beat++;
@@ -350,6 +352,7 @@ inline int main_impl(int argc, char** argv) {
     else if (a == "--nshards") r.nshards = strtoull(val(), nullptr, 10);
     else if (a == "--start") r.start = strtoull(val(), nullptr, 10);
     else if (a == "--only") r.only = strtoll(val(), nullptr, 10);
+    else if (a == "--upto") r.upto = strtoll(val(), nullptr, 10);
     else if (a == "--slot") slotpath = val();
     else if (a == "--out") out = val();
     else { fprintf(stderr, "unknown arg %s\n", a.c_str()); return 3; }
